@@ -82,7 +82,7 @@ class C11(Check):
     # ------------------------------------------------------------------ gen
     def _mask(self, rng, g, n, pat=None):
         iv = g.uniform(1, 5, n)
-        pat = pat if pat is not None else rng.choice(['none', 'edges', 'runs', 'random', 'alternating', 'isolated', 'runs', 'single_pixels'])
+        pat = pat if pat is not None else rng.choice(['none', 'edges', 'runs', 'random', 'alternating', 'isolated', 'runs', 'single_pixels', 'tiny_weights'])
         if pat == 'edges':
             iv[:rng.randint(1, 20)] = 0
             iv[-rng.randint(1, 20):] = 0
@@ -97,6 +97,20 @@ class C11(Check):
         elif pat == 'single_pixels':
             for _ in range(rng.randint(1, 6)):
                 iv[rng.randint(3, n - 4)] = 0            # isolated single zero-weight pixels
+        elif pat == 'tiny_weights':
+            # a stretch of pixels whose weight is positive but negligible (below 1e-10 of the rest): at the blue end, right after a
+            # masked run, in the middle or at the red end - the fit has to drop breakpoints there and carry on
+            m = rng.randint(4, 9)
+            where = rng.choice(['start', 'after_run', 'middle', 'end'])
+            if where == 'start':
+                a = 0
+            elif where == 'end':
+                a = n - m
+            else:
+                a = rng.randint(20, n - 20 - m)
+                if where == 'after_run':
+                    iv[max(0, a - rng.randint(2, 12)):a] = 0
+            iv[a:a + m] = iv.mean() * 10 ** g.uniform(-14, -11, m)
         elif pat == 'isolated':
             a = rng.randint(20, n - 20)
             iv[a - 6:a] = 0
@@ -137,6 +151,9 @@ class C11(Check):
             nl = l0 + dl * (n + 10 + np.arange(rng.randint(5, 60)))
             if rng.random() < 0.5:
                 nl = l0 - dl * (10 + np.arange(rng.randint(5, 60)))[::-1]
+        if rng.random() < 0.12:
+            # the same grid in decreasing wavelength order (red to blue)
+            nl, kind = nl[::-1].copy(), kind + '_decreasing'
         return nl, kind
 
     def gen(self, cls, rng, i):
@@ -199,6 +216,7 @@ class C11(Check):
                     'unit': rng.choice([1.0, 1.0, 1e-17, 1e5])}
             # output windows whose two ends differ (one end at / beyond the data edge, the other inside good data), and flux given
             # in other dtypes (float32; integer counts for constant spectra)
+            case['decreasing'] = rng.random() < 0.15
             case['jitter'] = rng.choice([0, 1, 2, 3, 4])         # same grid "up to rounding" when the shift is zero
             case['window'] = rng.choice(['same', 'same', 'left', 'right', 'interior'])
             case['wpar'] = [rng.randint(0, 10), rng.uniform(0.35, 0.65)]
@@ -361,6 +379,12 @@ class C11(Check):
         nl = ll + case['shift'] * dl
         if case.get('jitter') and case['shift'] == 0.0:
             nl = [np.linspace(ll[0], ll[-1], n), np.nextafter(ll, -np.inf), np.nextafter(ll, np.inf), (ll * 3.0) / 3.0][case['jitter'] - 1]
+        if case.get('decreasing'):
+            return ll, sig, iv, self._window(case, ll, nl, n, dl)[::-1].copy()
+        return ll, sig, iv, self._window(case, ll, nl, n, dl)
+
+    @staticmethod
+    def _window(case, ll, nl, n, dl):
         win = case.get('window', 'same')
         if win != 'same':
             e, frac = case['wpar']
@@ -371,7 +395,7 @@ class C11(Check):
                 nl = ll[0] + dl * (np.arange(m, n + e) + case['shift'])
             else:                        # both ends inside good data
                 nl = ll[0] + dl * (np.arange(n // 5, n - n // 5) + case['shift'])
-        return ll, sig, iv, nl
+        return nl
 
     def _far_from_bad(self, ll, iv, nl, dl):
         bad_pos = np.concatenate([ll[iv == 0], [ll[0] - dl, ll[-1] + dl]])
